@@ -244,11 +244,11 @@ PROPS = {
     },
     "C03": {
         "rule": "live: dumps that succeed, fail hard (unreadable app memory), hit a destination I/O error or a destination panic at a random call index 0 … 45, "
-                "run with the process-wide stop disabled or with a stop that times out, against targets with blocked and busy threads and, in one case in three, a "
+                "run with the process-wide stop disabled (also under a steady stream of realtime signals to every thread) or with a stop that times out, against targets with blocked and busy threads and, in one case in three, a "
                 "sandbox-helper-like thread (null stack pointer: attached, then skipped); realtime signals are sent to chosen threads at the "
                 "sync-hook points dump_start / threads_enumerated / before_attach(tid) / threads_suspended / before_resume / after_resume. Afterwards: "
                 "State and TracerPid of every task, per-thread delivered-signal counters, heartbeat of busy threads. Distinct = (scenario, outcome, call, #tasks, #signals).",
-        "expected_tags": ["scen.ok", "scen.destfail", "scen.destpanic", "scen.badapp", "scen.nostop", "scen.stoptimeout", "scen.ok-signals", "scen.destfail-signals", "signals.checked", "spin.checked", "result.panic", "thread.nullsp"],
+        "expected_tags": ["scen.ok", "scen.destfail", "scen.destpanic", "scen.badapp", "scen.nostop", "scen.stoptimeout", "scen.nostop-storm", "scen.ok-signals", "scen.destfail-signals", "signals.checked", "spin.checked", "result.panic", "thread.nullsp"],
         "trusted_base": ["kernel semantics of ptrace attach / signal-delivery-stop / detach / group stop / SIGCONT (assumed; the live matrix observes their effect)",
                          "a failed PTRACE_CONT or a non-stop wait status means the tracee no longer exists"],
         "assumptions": ["partial: the kernel side is not modelled beyond the assumptions above; externally sent SIGSTOP/SIGCONT are excluded",
